@@ -539,22 +539,39 @@ func init() {
 }
 
 func r047(c *Ctx, r *R) {
-	// (1) Unpin: meta arm
+	// (1) Unpin: the meta entry goes only after its DAG entries (decided by
+	// R04.4 `meta-dag-first` on paths; here: the call exists and meta pins
+	// reach it)
 	if f := c.fn(r, "", "Cluster.Unpin"); f != nil {
 		meta := c.constIn("api", "MetaType")
-		n := 0
-		for _, ci := range findCalls(f, false, c04Sinks[1]) {
-			isT := func(x ssa.Value) bool { fl, _ := fieldLoad(x); return fl != nil && fl.Name() == "Type" }
-			if !guardedBy(ci.Block(), func(g Guard) bool { return gEq(g, meta, true, isT) }) {
-				continue
+		isT := func(x ssa.Value) bool { fl, _ := fieldLoad(x); return fl != nil && fl.Name() == "Type" }
+		ucd := findCalls(f, false, ModPath+".Cluster).unpinClusterDag")
+		okReach := false
+		for _, u := range ucd {
+			// reachable for a meta pin
+			if !mustPass(u.Block(), func(g Guard) bool {
+				if gEq(g, meta, false, isT) {
+					return true
+				}
+				x, kk, tme, isEq := eqConst(g.Cond)
+				return isEq && isT(x) && tme == g.Branch && !constant.Compare(kk, token.EQL, meta)
+			}) {
+				okReach = true
 			}
-			n++
-			ok := guardedBy(ci.Block(), func(g Guard) bool { return gCallErrNil(g, ModPath+".Cluster).unpinClusterDag") })
-			r.Check(ok, "Unpin:meta-after-dag", ci.Pos(), "the meta entry is unpinned only after its cluster-DAG and shard entries were", "Unpin removes the meta entry of sharded content without (successfully) unpinning its cluster-DAG and shard entries first: they stay in the pinset for ever")
 		}
-		if n == 0 {
-			r.Bad("Unpin:meta-after-dag", f.Pos(), "no LogUnpin under pin.Type == MetaType in Unpin")
+		okAfter := len(ucd) > 0
+		for _, ci := range findCalls(f, false, c04Sinks[1]) {
+			if !mustPass(ci.Block(), func(g Guard) bool {
+				if gCallErrNil(g, ModPath+".Cluster).unpinClusterDag") || gEq(g, meta, false, isT) {
+					return true
+				}
+				x, kk, tme, isEq := eqConst(g.Cond)
+				return isEq && isT(x) && tme == g.Branch && !constant.Compare(kk, token.EQL, meta)
+			}) {
+				okAfter = false
+			}
 		}
+		r.Check(okReach && okAfter, "Unpin:meta-after-dag", f.Pos(), "the meta entry is unpinned only after its cluster-DAG and shard entries were", "Unpin removes the meta entry of sharded content without (successfully) unpinning its cluster-DAG and shard entries first: they stay in the pinset for ever")
 	}
 	// (2) unpinClusterDag: every listed CID is unpinned
 	if f := c.fn(r, "", "Cluster.unpinClusterDag"); f != nil {
